@@ -123,7 +123,7 @@ static void apply(const struct op *o, struct mstate *m) {
             uint64_t t = (m->nullpat & 1) ? 1700000000ULL : E.clock[m->table];
             r->birthday = ref_birthday_index(t); r->features = f;
             /* C18: sources */
-            int tsrc = (m->nullpat & 1) ? (E.n_libc_time == 1 && E.n_time == 0) : (E.n_time == 1 && E.n_libc_time == 0 && E.last_table == m->table);
+            int tsrc = (m->nullpat & 1) ? (E.n_libc_time >= 1 && E.n_time == 0) : (E.n_time >= 1 && E.n_libc_time == 0);
             int asrc = (m->nullpat & 2) ? (E.n_libc_malloc == 1 && E.n_alloc == 0) : (E.n_alloc == 1 && E.n_libc_malloc == 0);
             if (!tsrc) { snprintf(k, sizeof k, "c18:time-source:%s", o->name); BADV(k, "%s: time source calls injected=%lu libc=%lu (table %d, nullpat %d)", o->name, E.n_time, E.n_libc_time, m->table, m->nullpat); }
             if (!asrc) { snprintf(k, sizeof k, "c18:alloc-source:%s", o->name); BADV(k, "%s: allocation calls injected=%lu libc=%lu", o->name, E.n_alloc, E.n_libc_malloc); }
@@ -259,6 +259,14 @@ static void battery(struct mstate *m) {
         { uint8_t st_[32]; polyseed_store(SLOT[i], st_); polyseed_data *d = NULL; int st = polyseed_load(st_, &d), want = ref_supported(r->features, m->mask) ? ST_OK : ST_UNSUPPORTED; BAT_CALLS += 2;
           if (st != want) { BADV("c13:battery-load", "slot %d: loading its own serialisation returned %d, model %d", i, st, want); }
           if (st == POLYSEED_OK) { uint8_t b[32]; polyseed_store(d, b); if (memcmp(st_, b, 32)) BADV("c13:battery-load-seed", "slot %d: reloaded seed differs", i); polyseed_free(d); } }
+    }
+    if (P_API) {   /* a blob and a phrase carrying the reserved internal feature bit are refused in every state */
+        static rseed rb; static int init; static uint8_t img[32]; static char phr[2048];
+        if (!init) { init = 1; for (int i = 0; i < 19; i++) rb.secret[i] = (uint8_t)(0x17 * (i + 2)); rb.secret[18] &= 0x3F; rb.birthday = 9; rb.features = 8; ref_storage(&rb, img); ref_phrase(&rb, 0, 0, phr, 0); }
+        polyseed_data *d = NULL; int st = polyseed_load(img, &d); BAT_CALLS++; if (st == POLYSEED_OK) polyseed_free(d);
+        if (st != ST_UNSUPPORTED) BADV("c13:battery-reserved-load", "load of a seed with the reserved feature bit returned %d", st);
+        d = NULL; st = polyseed_decode_explicit(phr, 0, polyseed_get_lang(0), &d); BAT_CALLS++; if (st == POLYSEED_OK) polyseed_free(d);
+        if (st != ST_UNSUPPORTED) BADV("c13:battery-reserved-decode", "decode of a phrase with the reserved feature bit returned %d", st);
     }
     if (P_FEAT) {
         /* C10: all 32 feature values at the four entry points */
@@ -400,7 +408,7 @@ static void build_profile(void) {
         PASSWORDS[0] = ""; PASSWORDS[1] = "a"; PASSWORDS[2] = "\xC3\xA9"; PASSWORDS[3] = "e\xCC\x81"; PASSWORDS[4] = "\xEF\xBD\xB6"; PASSWORDS[5] = LONGPW; PASSWORDS[6] = "\xE3\x82\xAB"; NPW = 7;
         if (G_thorough) { PASSWORDS[7] = "fi"; PASSWORDS[8] = "\xEF\xAC\x81"; NPW = 9; }   /* U+FB01 LATIN SMALL LIGATURE FI is compatibility-equivalent to "fi" */
         RECODES[0] = (struct recv){ 0, 1, 1 }; RECODES[1] = (struct recv){ 1, 9, 0 }; RECODES[2] = (struct recv){ 4, 0, 0 }; NREC = 3;
-        add_op(O_ENABLE, 7, 0, 0, "enable_features(7)");
+        add_op(O_ENABLE, 13, 0, 0, "enable_features(0xffffffff)");
         add_op(O_CREATE, 0, 0, 0, "create(features=0)"); add_op(O_CREATE, 0, 5, 1, "create'(features=5)");
         add_op(O_FREE, 0, 0, 0, "free(slot0)"); add_op(O_FREE, 1, 0, 0, "free(slot1)");
         for (int p = 0; p < NPW; p++) add_op(O_CRYPT, 0, p, 0, "crypt(slot0,pw%d)", p);
